@@ -20,6 +20,7 @@ import (
 
 	"github.com/goccmack/gocc/internal/ast"
 	"github.com/goccmack/gocc/internal/lexer/symbols"
+	"github.com/goccmack/gocc/internal/verifhook"
 )
 
 type ItemSets struct {
@@ -51,6 +52,7 @@ func (this *ItemSets) Add(items ItemList) (setNo int) {
 
 func (this *ItemSets) Closure() *ItemSets {
 	for i := 0; i < len(this.sets); i++ {
+		verifhook.Step(verifhook.SiteLexItemSetsClosure)
 		for symI, rng := range this.sets[i].SymbolClasses.List() {
 			if items := this.sets[i].Next(rng); len(items) != 0 {
 				setNo, nextState := this.Add(items), this.sets[i].Transitions[symI]
